@@ -449,6 +449,18 @@ func c03Plan(ctx *core.Ctx) []Scenario {
 			}
 		}
 	}
+	// one committee, both curves, in one process: the same (large) party ids and t = 2 for an EdDSA and an ECDSA key
+	// generation (state kept between calls that is keyed by an id alone - powers of an id, Lagrange coefficients - would
+	// be wrong for the second group order)
+	{
+		same := []string{"57896044618658097711785492504343953926634992332820282019728792003956564819949",
+			"28948022309329048855892746252171976963317496166410141009864396001978282409984",
+			"43422033463993573283839119378257965444976244249615211514796594002967423614962"}
+		for _, p := range []pump.Proto{pump.EdKeygen, pump.EcKeygen, pump.EdKeygen} {
+			scs = append(scs, Scenario{Proto: p, N: 3, T: 2, Strategy: "fifo", Seed: ctx.Seed*3001 + int64(i) + 1, PartyKeys: same})
+			i++
+		}
+	}
 	// share ids that collide (or vanish) modulo the group order are inadmissible: the run may be refused, but if it
 	// completes the sharing must still be consistent
 	for _, p := range []pump.Proto{pump.EdKeygen, pump.EcKeygen} {
